@@ -88,6 +88,12 @@ func c17Main(rc *RunCtx) {
 			} else {
 				b[2] &^= 0x02
 			}
+			if simrt.Choose(6) == 0 {
+				// a server may strip everything but the 12-byte header
+				b = append([]byte(nil), b[:12]...)
+				b[4], b[5], b[6], b[7], b[8], b[9], b[10], b[11] = 0, 0, 0, 0, 0, 0, 0, 0
+				simrt.Fault("udp_reply_header_only")
+			}
 			c.udpSent[call.Idx] = append([]byte(nil), b...)
 			c.udpTC[call.Idx] = tc
 			sc.WriteMsg(b, info)
@@ -170,6 +176,10 @@ func c17Check(rc *RunCtx, c *c17cfg, x *Call) {
 		simrt.Probe("c17.tc_reply")
 		seen := c.tcpSeen[x.Idx]
 		if x.Err == nil {
+			if len(x.Resp) == len(sent) && len(sent) >= 3 && bytes.Equal(x.Resp[2:], sent[2:]) {
+				rc.Fail("truncated_udp_reply_returned", "call %d: the UDP reply had TC set (%d bytes), but the call returned that UDP reply instead of retrying over TCP", x.Idx, len(sent))
+				return
+			}
 			nonce, _, _, err := replyNonce(x.Resp)
 			if err != nil {
 				rc.Fail("tc_result_unparsable", "call %d: %v", x.Idx, err)
